@@ -15,7 +15,7 @@ func registerC12() {
 		Level: "exploration",
 		Rule: "PRNG sequences mixing explicit timestamps (field 253), compressed-timestamp records (all 32 offsets, rollovers, runs of up to 200) and local timestamps over " +
 			"record / monitoring / activity / lap / device_info messages, messages without a timestamp field and unknown messages, both byte orders, local types 0-3; every time " +
-			"field of every decoded message is compared with a 30-line reference state machine (ref/interp.go); one file type in six is a course file with course_point messages (field 1 is called timestamp, there is no field 253); family chains: 2-3 such sequences concatenated and decoded by DecodeChained: the time reference starts afresh in every file (a compressed record or local timestamp before a file's first explicit timestamp has no reference); non-trivial: at least one compressed record with a reference, " +
+			"field of every decoded message is compared with a 30-line reference state machine (ref/interp.go); one file type in six is a course file with course_point messages (field 1 is called timestamp, there is no field 253); family zone-grid: every local-minus-UTC difference on the quarter-hour grid from -30 h to +30 h, each also 1, 7 and 59 s to either side, and far-out values; family chains: 2-3 such sequences concatenated and decoded by DecodeChained: the time reference starts afresh in every file (a compressed record or local timestamp before a file's first explicit timestamp has no reference); non-trivial: at least one compressed record with a reference, " +
 			"or a local timestamp, was compared; distinct by stream digest",
 		Assume: []string{
 			"not generated because the statement leaves them open: an explicit timestamp of value 0 followed by compressed records; field 253 in a message or definition the profile does not know",
@@ -25,6 +25,7 @@ func registerC12() {
 		Families: []lib.Family{
 			{Name: "sequences", N: func(t string) uint64 { return tierN(t, 100000, 2000000) }, Run: c12Case},
 			{Name: "chains", N: func(t string) uint64 { return tierN(t, 6000, 200000) }, Run: c12Chain},
+			{Name: "zone-grid", N: func(t string) uint64 { return uint64(len(zoneGridOffsets())) * 2 }, Run: c12ZoneGrid},
 		},
 	})
 }
@@ -38,6 +39,54 @@ var c12Mesgs = map[byte][]uint16{
 	15: {55, 55, 103, 23},
 	7:  {28, 28, 49},
 	6:  {20, 20, 32, 32, 32, 19, 49}, // course_point: a message whose "timestamp" is field 1 and that has no field 253
+}
+
+// zoneGridOffsets: local-minus-UTC differences on the quarter-hour grid from -30 h to +30 h, each
+// also 1, 7 and 59 seconds to either side, and a few far-out values.
+func zoneGridOffsets() []int64 {
+	var out []int64
+	for k := int64(-120); k <= 120; k++ {
+		for _, d := range []int64{0, 1, -1, 7, -7, 59, -59} {
+			out = append(out, k*900+d)
+		}
+	}
+	for _, far := range []int64{86400, -86400, 86399, 100000, -100000, 1 << 24, -(1 << 24), 1<<30 - 1, -(1 << 30), 600000000, -600000000} {
+		out = append(out, far)
+	}
+	return out
+}
+
+// zoneGridPlan: an activity file with one record giving the UTC reference R and activity /
+// monitoring-style messages whose local timestamp is R + off (and R itself, offset 0).
+func zoneGridPlan(off int64, arch byte) *ref.Plan {
+	const R = 0x3B9ACA00 // 1 000 000 000 s after the FIT epoch
+	put := func(v uint64) []byte {
+		b := make([]byte, 4)
+		ref.Put(b, v, 4, arch)
+		return b
+	}
+	p := &ref.Plan{HeaderSize: 14, Proto: 0x20, ProfVer: 2115}
+	p.Records = append(p.Records,
+		ref.Record{IsDef: true, Local: 0, Global: 0, Fields: []ref.FieldDef{{Num: 0, Size: 1, Base: 0}}},
+		ref.Record{Local: 0, Data: [][]byte{{4}}},
+		ref.Record{IsDef: true, Local: 1, Arch: arch, Global: 20, Fields: []ref.FieldDef{{Num: 253, Size: 4, Base: 0x86}}},
+		ref.Record{Local: 1, Data: [][]byte{put(R)}},
+		ref.Record{IsDef: true, Local: 2, Arch: arch, Global: 34, Fields: []ref.FieldDef{{Num: 253, Size: 4, Base: 0x86}, {Num: 5, Size: 4, Base: 0x86}}},
+		ref.Record{Local: 2, Data: [][]byte{put(R), put(uint64(R + off))}},
+		ref.Record{Local: 2, Data: [][]byte{put(R + 10), put(R + 10)}},
+		ref.Record{Local: 2, Data: [][]byte{put(R + 20), put(uint64(R + 20 + off))}},
+	)
+	return p
+}
+
+func c12ZoneGrid(c *lib.Ctx, idx uint64) {
+	offs := zoneGridOffsets()
+	off := offs[idx/2]
+	plan := zoneGridPlan(off, byte(idx%2))
+	if ex, _, ok := checkPlanDecode(c, plan, "zone_grid_", true); ok && ex != nil {
+		c.Count("zone_offsets_on_the_grid_compared", 1)
+		c.Nontrivial(plan.Bytes())
+	}
 }
 
 func c12Case(c *lib.Ctx, idx uint64) {
